@@ -28,9 +28,15 @@ def vh_replay(check):
     return replay_doc, runner
 
 
-def simple(check):
+def simple(check, require_full=()):
     def run(res, tier):
-        vh_lane(res, tier, check)
+        d = vh_lane(res, tier, check)
+        # coverage gates: a run that did not reach every parser state with the event the property is about is
+        # recorded as inconclusive for that aspect (never as a violation, never silently as a pass)
+        for name in require_full:
+            v = (d.get("arrays") or {}).get(name)
+            if not v or any(x == 0 for x in v):
+                res.add_inconclusive("coverage:%s" % name, "not every cell of %s was exercised: %s" % (name, v))
 
     rd, rc = vh_replay(check)
     return {"run": run, "replay": rd, "replay_case": rc}
@@ -64,7 +70,7 @@ reg(
     "seeded grammar streams (distinct by 64-bit hash); non-trivial = contains at least one byte outside printable ASCII "
     "(control, ESC, DEL or >= 0x80)",
     [A_REFVT, A_UTF8_STRIP],
-    simple("c01"),
+    simple("c01", require_full=("printable_or_ws_byte_arrival_by_state",)),
 )
 
 reg(
@@ -77,7 +83,7 @@ reg(
     "strings are distinct by construction, random streams by 64-bit hash",
     [A_REFVT, "malformed UTF-8 follows the contract of the utf8parse decoder the crate documents as out-of-band (one U+FFFD per rejected byte, byte consumed) - DESIGN 8.2",
      "beyond the documented limits the first 32 numbers / 2 intermediates / 16 OSC fields are kept - DESIGN 8.3"],
-    simple("c02"),
+    simple("c02", require_full=("cancel_arrived_in_state",)),
 )
 
 reg(
@@ -90,7 +96,7 @@ reg(
     "7 chunkers + one targeted cut per parser state for long streams (distinct by hash of input+cuts); non-trivial = the input "
     "contains a byte outside printable ASCII and the partition has at least one cut",
     [A_REFVT + " (used only to classify cut positions for the coverage matrix)"],
-    simple("c03"),
+    simple("c03", require_full=("cut_position_state",)),
 )
 
 A_REFSGR = "trusted base: refmodel::sgr (ECMA-48 / xterm SGR interpreter written for this purpose)"
